@@ -50,11 +50,11 @@ Example C13_nonvacuous_m2m :
 Proof. vm_compute. split; [discriminate|]. repeat split; reflexivity. Qed.
 
 (* non-vacuity: a delete() that cascades to two children and is then refused because of a required dependent raises, is not
-   known-bad, and has real work to undo (five closures) *)
+   known-bad, and has real work to undo (four closures) *)
 Example C13_nonvacuous :
   let pre := [(None, ONew 0 1 [(5, AInt 0)]); (None, ONew 4 1 [(1, AObj 0)]); (None, ONew 4 2 [(1, AObj 0)]);
               (None, ONew 5 1 [(1, AObj 0)]); (None, OCommit)] in
   let s := state_of_history sch_S1 pre in
   raises sch_S1 None s (ODelete 0) /\ known_bad sch_S1 None s (ODelete 0) = false /\
-  match body sch_S1 None (ODelete 0) (mkctx s [] [] 0 0) with RErr EConstraint c => length (c_log c) = 5 | _ => False end.
+  match body sch_S1 None (ODelete 0) (mkctx s [] [] 0 0) with RErr EConstraint c => length (c_log c) = 4 | _ => False end.
 Proof. vm_compute. split; [discriminate|]. split; reflexivity. Qed.
